@@ -146,6 +146,7 @@ void harness(void)
 #endif
 #ifdef H4V_NATIVE
     printf("H4V-NCALLS %ld\n", memio_ncalls);
+    { extern int memio_callphase[512]; long q; printf("H4V-PHASES"); for (q = 0; q < memio_ncalls && q < 512; q++) printf(" %d", memio_callphase[q]); printf("\n"); }
     printf("H4V-FAULT k=%d kind=%s pos=%ld phase(line)=%d apifail=%d\n", K, memio_failed_kind ? memio_failed_kind : "-", memio_failed_pos, memio_failed_phase, apifail);
 #endif
     if (memio_any_failed && memio_failed_code == 2)
